@@ -621,6 +621,8 @@ def _make_cfg(rng, n, k, strategy, kmeans0, d=None, max_iter=None):
     X = gen_points(rng, n, d, rng.choice([4, 8, 16, 64]))
     # "any batch": also batches with fewer rows than clusters (then every cluster gets 0 or 1 row)
     m = rng.randint(k, max(k, n + 4)) if rng.random() < 0.7 else rng.randint(1, k)
+    if k >= 2 and rng.random() < 0.015:
+        m = rng.choice([513, 1030])          # a long batch (row counts around the block sizes of a chunked predict)
     Xb = gen_points(rng, m, d, rng.choice([2, 16]))
     return dict(n=n, k=k, strategy=strategy, kmeans0=kmeans0, seed=rng.randrange(1 << 30),
                 max_iter=max_iter or rng.choice([1, 2, 3, 4, 5, 6, 10, 20]), X=X.tolist(), Xb=Xb.tolist())
